@@ -140,12 +140,14 @@ def get_type_graph(t: type) -> graphlib.TopologicalSorter[TypeNode]:
             if is_visited and can_be_cyclic:
                 is_argument = var is not None
                 is_class = inspect.isclass(child)
-                is_named = hasattr(child, "__name__") and not (
-                    inspection.issubscriptedgeneric(child)
+                # Only classes, `NewType`s and type aliases can be referenced by name.
+                #   Subscripted generics and unions would lose their parameters,
+                #   so the node carries the type itself and consumers resolve it lazily.
+                is_named = (
+                    is_class
+                    or hasattr(child, "__supertype__")
+                    or inspection.istypealiastype(child)
                 )
-                # Subscripted generics and unions can't be referenced by name
-                #   without losing their parameters, so the node carries the type
-                #   itself and consumers resolve it lazily.
                 if not is_named:
                     node = TypeNode(child, unwrapped, var=var, cyclic=True)
                 else:
